@@ -99,7 +99,9 @@ def invalid_value(rng, kind, attr):
                 # look-alikes of valid choices
                 '\uff11.\uff10', '1.00', '01.0', '1.0\n', ' 1.0',
                 '\uff4a\uff53\uff4f\uff4e', 'un\u0131x', 'dos\u00a0',
-                'text/plain\u2028', 'b\u0131nary', 'JSON', 'Text']
+                'text/plain\u2028', 'b\u0131nary', 'JSON', 'Text',
+                'unix\n', 'dos\n', 'json\n', 'text\n', 'binary\n',
+                'text/plain\n', 'unix\r\n']
         return rng.choice([v for v in pool if v not in choices])
 
     wrong = {
